@@ -9,6 +9,7 @@
 mod engine_a;
 mod engine_b;
 mod engine_c;
+mod engine_d;
 mod engine_e;
 mod engine_f;
 mod engine_g;
@@ -27,6 +28,7 @@ fn engine_for(prop: &str) -> Option<&'static dyn Engine> {
     match prop {
         "C03" => Some(&engine_a::ENGINE_C03),
         "C08" => Some(&engine_a::ENGINE_C08),
+        "C07" => Some(&engine_d::ENGINE_C07),
         "C12" => Some(&engine_c::ENGINE_C12),
         "C13" => Some(&engine_b::ENGINE_C13),
         "C14" => Some(&engine_b::ENGINE_C14),
@@ -37,7 +39,7 @@ fn engine_for(prop: &str) -> Option<&'static dyn Engine> {
     }
 }
 
-const ALL: &[&str] = &["C03", "C08", "C12", "C13", "C14", "C17", "C18", "C19"];
+const ALL: &[&str] = &["C03", "C07", "C08", "C12", "C13", "C14", "C17", "C18", "C19"];
 
 fn main() {
     hashseed::install_panic_hook();
@@ -59,8 +61,11 @@ fn main() {
             Some(e) => {
                 let text = std::fs::read_to_string(&args[2]).expect("case file");
                 let case: serde_json::Value = serde_json::from_str(&text).expect("case json");
+                // whatever the system under test prints must not reach the result channel
+                let mut proto = procio::take_over_stdout();
                 let r = e.execute(&case);
-                println!("RESULT {}", framework::result_json(&r));
+                use std::io::Write;
+                let _ = writeln!(proto, "RESULT {}", framework::result_json(&r));
                 0
             }
             None => 2,
